@@ -96,7 +96,8 @@ fn monitor(rep: &mut Report, pl: &Plan) {
     };
     loop {
         call += 1;
-        if call > pl.bytes.len() * 2 + pl.plain.len() * 2 + 64 {
+        // (zero budgets in the cycle make calls that legitimately neither consume nor write)
+        if call > (pl.bytes.len() * 2 + pl.plain.len() * 2 + 64) * (pl.budgets.len() + 1) {
             rep.violation("C08:no-progress", "driver loop exceeded its logical call bound".into(), det(call, ""));
             return;
         }
